@@ -11,6 +11,7 @@
 -/
 import NemoVerif.Lemmas.Isolation
 import NemoVerif.Lemmas.IsolationConvert
+import NemoVerif.Lemmas.IsolationRepaired
 namespace NemoVerif.C15
 open NemoVerif.Isolation
 
@@ -88,6 +89,46 @@ theorem eventsFor_longest_prefix {K : Type} [DecidableEq K] {Ev : Type} (key : L
       (∀ q, p < q → q < msgs.length → find (key (msgs.take q)) C = none) := by
   obtain ⟨h1, h2, h3, h4⟩ := lookupLongest_spec key C msgs (msgs.length - 1)
   exact ⟨_, _, rfl, h1, h2, h3, fun q a b => h4 q a (by omega)⟩
+
+/-! ### requests with generation options / with an explicit state object -/
+
+/-- `generate_async(options=…)`: the options travel as a leading `context` message (text = `json.dumps` of the
+    options); everything else is the same request path -/
+def withOptions (opt : Option Str) (msgs : List Msg) : List Msg :=
+  match opt with
+  | some o => ⟨rContext, o⟩ :: msgs
+  | none => msgs
+
+/-- Isolation for requests WITH generation options: the schedule of effective requests is a schedule like any
+    other (instance of `isolated_if_injective`: the theorem quantifies over all requests). -/
+theorem isolated_with_options {K : Type} [DecidableEq K] {Ev : Type} (key : List Msg → K)
+    (hinj : ∀ a b, key a = key b → a = b) (conv : List Msg → List Ev) (turn : List Ev → Msg × List Ev)
+    (s : List (Nat × Option Str × List Msg))
+    (hc : Compatible (isoRuns key conv turn (s.map fun x => (x.1, withOptions x.2.1 x.2.2)))) (c : Nat) :
+    ofConv c (runT key conv turn [] (s.map fun x => (x.1, withOptions x.2.1 x.2.2)))
+      = runT key conv turn [] ((ofConv c s).map fun x => (x.1, withOptions x.2.1 x.2.2)) := by
+  have h := isolated_if_injective key hinj conv turn (s.map fun x => (x.1, withOptions x.2.1 x.2.2)) hc c
+  have e : ofConv c (s.map fun x => (x.1, withOptions x.2.1 x.2.2))
+      = (ofConv c s).map fun x => (x.1, withOptions x.2.1 x.2.2) := by
+    simp only [ofConv, List.filter_map]; rfl
+  rw [← e]; exact h
+
+/-- With the lookup guarded by `state is None` a request that carries a state object is handed events that do not
+    depend on the implicit cache at all, i.e. on no other conversation served by the instance (and such a request
+    never writes the cache: `if state is None` around the write, located by the static tie). -/
+theorem state_request_independent_of_cache {K : Type} [DecidableEq K] {Ev : Type} (key : List Msg → K)
+    (conv : List Msg → List Ev) (C C' : Cache K Ev) (stateEv : List Ev) (msgs : List Msg) :
+    eventsForState true key conv C stateEv msgs = eventsForState true key conv C' stateEv msgs := rfl
+
+/-- As the code is, the lookup ignores `state`: a request with a state object whose messages extend a history
+    stored for another conversation is continued from THAT conversation's events (finite fact, `decide`). -/
+theorem state_request_as_is_counterexample :
+    eventsForState false (fun m => m) convTailC
+        [([⟨rUser, ['a']⟩, ⟨rAssistant, ['b']⟩], [CEv.opaque 1])] []
+        [⟨rUser, ['a']⟩, ⟨rAssistant, ['b']⟩, ⟨rUser, ['x']⟩]
+      ≠ eventsForState false (fun m => m) convTailC [] []
+        [⟨rUser, ['a']⟩, ⟨rAssistant, ['b']⟩, ⟨rUser, ['x']⟩] := by
+  decide
 
 /-! ### the conversion of the current source (`convTailC`): declarative specification
 
@@ -182,6 +223,14 @@ theorem as_is_counterexample :
 example :
     stepEvents (ofConv 1 (runT (fun m => m) convTailC turnW [] schedW))
       = stepEvents (runT (fun m => m) convTailC turnW [] (ofConv 1 schedW)) := by
+  decide
+
+/-- sanity / non-vacuity of `isolated_with_options` on a schedule with and without options (stand-in injective key) -/
+example :
+    let s : List (Nat × Option Str × List Msg) :=
+      [(0, some ['o'], [u ['a']]), (1, none, [u ['a', ':', 'b'], u ['x']]), (0, some ['o'], [u ['a'], a ['b'], u ['y']])]
+    stepEvents (ofConv 0 (runT (fun m => m) convTailC turnW [] (s.map fun x => (x.1, withOptions x.2.1 x.2.2))))
+      = stepEvents (runT (fun m => m) convTailC turnW [] ((ofConv 0 s).map fun x => (x.1, withOptions x.2.1 x.2.2))) := by
   decide
 
 /-- `Compatible` cannot be dropped even for an injective key (here: the identity): conversation 1 sends
@@ -369,6 +418,103 @@ theorem params_nested_ok_concrete (tasks : Nat → List (Nat × PVal)) (σ0 : St
   obtain ⟨r1, r2⟩ := concrete_refines_abstract tasks σ0 hp sched
   obtain ⟨a1, a2⟩ := params_nested_ok tasks hnd (absStore σ0) sched h
   exact ⟨fun n => (r1 n).trans (a1 n), fun c hc => a2 c (r2 ▸ hc)⟩
+
+
+/-! ## the repaired `LLMParams` (fixes/C15-llm-params-overlap.diff): full strength, every interleaving
+
+  `ParamsR.runR M (initR cfg) sched`: the labelled transition system of Models/IsolationRepaired.lean — the atomic
+  sections of `LLMParams.__enter__` / `__exit__` / `llm_for_call` of any number of managers of any number of tasks
+  on ONE shared LLM object, in ANY order (`sched` is an arbitrary list of labels; a label that the code cannot
+  perform in a state — enter of an open section, call/exit of a closed one — is a no-op).  The only hypothesis is
+  that `altered_params` is a dict (distinct parameter names). -/
+
+namespace Repaired
+open ParamsR
+
+variable {V : Type}
+
+/-- **Whenever no request is in flight, the LLM object's parameters are the configured ones** — for every schedule
+    (every interleaving of critical sections: disjoint, nested, overlapping in any order), in the final state and,
+    since every prefix of a schedule is a schedule, in every intermediate state in which no section is open. -/
+theorem params_always_configured_when_idle (M : Mgrs V) (hdict : ∀ m, ((M.alt m).map (·.1)).Nodup)
+    (cfg : Nat → V) (sched : List (Nat × Act)) (hidle : (runR M (initR cfg) sched).opn = []) :
+    (runR M (initR cfg) sched).store = cfg :=
+  idle_configured M cfg _ (invR_run M hdict cfg sched _ (invR_init M cfg)) hidle
+
+/-- … stated for every intermediate state explicitly -/
+theorem params_configured_at_every_idle_point (M : Mgrs V) (hdict : ∀ m, ((M.alt m).map (·.1)).Nodup)
+    (cfg : Nat → V) (sched : List (Nat × Act)) (n : Nat) (hidle : (runR M (initR cfg) (sched.take n)).opn = []) :
+    (runR M (initR cfg) (sched.take n)).store = cfg :=
+  params_always_configured_when_idle M hdict cfg _ hidle
+
+/-- Every LLM call runs with the configured values overridden by open sections of its OWN task only — all
+    parameters, not only those the task sets; no value of another task ever reaches it. -/
+theorem calls_run_with_own_params (M : Mgrs V) (hdict : ∀ m, ((M.alt m).map (·.1)).Nodup)
+    (cfg : Nat → V) (sched : List (Nat × Act)) :
+    ∀ c ∈ (runR M (initR cfg) sched).calls,
+      ∃ secs, (∀ s ∈ secs, M.owner s = M.owner c.1) ∧ c.2 = applied M cfg secs := by
+  suffices h : ∀ (sched : List (Nat × Act)) (st : ParamsR.Sys V), InvR M cfg st →
+      (∀ c ∈ st.calls, ∃ secs, (∀ s ∈ secs, M.owner s = M.owner c.1) ∧ c.2 = applied M cfg secs) →
+      ∀ c ∈ (runR M st sched).calls, ∃ secs, (∀ s ∈ secs, M.owner s = M.owner c.1) ∧ c.2 = applied M cfg secs by
+    exact h sched _ (invR_init M cfg) (by simp [initR])
+  intro sched
+  induction sched with
+  | nil => intro st _ h; exact h
+  | cons l sched ih =>
+    intro st hi h
+    apply ih _ (invR_step M hdict cfg st l hi)
+    obtain ⟨m, a⟩ := l
+    rw [stepR_calls]
+    cases a with
+    | enter => exact h
+    | exit => exact h
+    | call =>
+      simp only
+      split
+      · intro c hc
+        simp only [List.mem_append, List.mem_singleton] at hc
+        rcases hc with hc | rfl
+        · exact h c hc
+        · exact ⟨_, fun s hs => by simpa using (List.mem_filter.1 hs).2, viewR_eq M hdict cfg st m hi⟩
+      · exact h
+
+/-- **The parameters the LLM calls of a task run with do not depend on the schedule**: in every interleaving with
+    the steps of any other tasks, the calls of task `t` (in order, with all their parameter values) are exactly those
+    of `t` running alone on a fresh object. -/
+theorem replies_independent_of_schedule (M : Mgrs V) (hdict : ∀ m, ((M.alt m).map (·.1)).Nodup)
+    (cfg : Nat → V) (sched : List (Nat × Act)) (t : Nat) :
+    callsOf M t (runR M (initR cfg) sched).calls = (runR M (initR cfg) (ofTask M t sched)).calls := by
+  have h := sim_run M hdict cfg t sched (initR cfg) (initR cfg)
+    ⟨invR_init M cfg, invR_init M cfg, rfl, rfl⟩
+  exact h.calls_eq.symm
+
+/-- … hence two schedules that agree on the steps of task `t` give `t` the same calls -/
+theorem calls_equal_of_same_projection (M : Mgrs V) (hdict : ∀ m, ((M.alt m).map (·.1)).Nodup)
+    (cfg : Nat → V) (s1 s2 : List (Nat × Act)) (t : Nat) (h : ofTask M t s1 = ofTask M t s2) :
+    callsOf M t (runR M (initR cfg) s1).calls = callsOf M t (runR M (initR cfg) s2).calls := by
+  rw [replies_independent_of_schedule M hdict, replies_independent_of_schedule M hdict, h]
+
+/-- non-vacuity: two tasks (managers 0 and 1 set parameter 0; 2 and 3 are the parameterless sections that mark
+    their LLM calls as in flight), the overlapping schedule of `params_overlap_counterexample` -/
+def Mex : Mgrs Int :=
+  { owner := fun m => m % 2, alt := fun m => if m = 0 then [(0, 10)] else if m = 1 then [(0, 11)] else [] }
+
+example : ∀ m, ((Mex.alt m).map (·.1)).Nodup := by
+  intro m; unfold Mex; simp only; split
+  · decide
+  · split <;> decide
+
+def schedEx : List (Nat × Act) :=
+  [(0, .enter), (1, .enter), (2, .enter), (2, .call), (3, .enter), (3, .call), (2, .exit), (0, .exit),
+   (3, .exit), (1, .exit)]
+
+/-- on the overlapping schedule both calls see their own value and the idle object is the configured one
+    (kernel-checked on the model; the same schedule on the real code is a corpus case) -/
+example : ((runR Mex (initR fun _ => 7) schedEx).calls.map fun c => (c.1, c.2 0)) = [(2, 10), (3, 11)]
+    ∧ (runR Mex (initR fun _ => 7) schedEx).store 0 = 7 ∧ (runR Mex (initR fun _ => 7) schedEx).opn = [] := by
+  decide
+
+end Repaired
 
 /-! ## context variables -/
 
